@@ -276,3 +276,220 @@ class HandleError(Contract):
         errs = s1.fields.get("g_errors", SInt(0)).t - s0.fields.get("g_errors", SInt(0)).t
         out.append(("at-most-one-error-page", And(errs >= 0, errs <= 1)))
         return out
+
+
+# ======================================================================================================
+# models for the request handlers: wsgi.create, the application, its iterable
+# ======================================================================================================
+class EnvironModel(ClassModel):
+    def getitem(self, ex, st, ref, o, key):
+        k = key.concrete_py() if isinstance(key, SStr) else None
+        if k == "wsgi.file_wrapper":
+            return [ex.res(st, ClassV(ex.env.use_class("gunicorn.http.wsgi", "FileWrapper")))]
+        return [ex.res(st, Opaque("environ[%s]" % k))]
+
+    def setitem(self, ex, st, ref, o, key, v):
+        return [(st, None)]
+
+
+ENVIRON = EnvironModel()
+
+
+def fresh_response(env, st, req, sock, cfg):
+    """a Response right after wsgi.create(): nothing decided, nothing sent"""
+    env.use_class("gunicorn.http.wsgi", "Response")
+    hdrs = st.alloc(HList(sym=ListShape(W.APP_HDR).fresh_seq(st, "resp.headers", view=False)))
+    st.assume(st.obj(hdrs).sym.hi == 0)
+    return st.alloc(HObj("Response", {
+        "req": req, "sock": sock, "cfg": cfg, "version": SStr.lit(env.repo.live("gunicorn").SERVER), "status": NONE,
+        "status_code": NONE, "chunked": SBool(False), "must_close": SBool(False), "headers": hdrs, "headers_sent": SBool(False),
+        "response_length": NONE, "sent": SInt(0), "upgrade": SBool(False), "g_hend": SInt(fresh_int("g_hend")),
+        "g_closed": SBool(False)}))
+
+
+@contract("gunicorn.http.wsgi:create", props=("C15", "C08"))
+class CreateForWorkers(Contract):
+    """call-mode model used by the worker handlers (the environ content itself is C15/C08's subject): a fresh Response bound
+    to the client socket and an environ object; may raise ConfigurationProblem or OSError (100-continue send)"""
+    trusted = True
+
+    def raises(self, c):
+        E = http_errs(c.ex.env)
+        return [(E.ConfigurationProblem, None), (OSError, None, lambda c2: {"errno": SInt(fresh_int("errno"))})]
+
+    def result_shape(self, c):
+        st = c.st
+        c.ex.env.class_models["Environ"] = ENVIRON
+        resp = fresh_response(c.ex.env, st, c.a["req"], c.a["sock"], c.a["cfg"])
+        st.ghost["resp"] = resp
+        return STuple([resp, st.alloc(HObj("Environ", {}))])
+
+
+class AppIterModel(ClassModel):
+    """the iterable returned by the application: yields bytes, may raise, may have close()"""
+
+    def hasattr(self, ex, st, v, o, name):
+        if name == "close":
+            return o.fields["g_has_close"].t
+        return False
+
+    def call(self, ex, st, self_v, meth, args, kwargs, node):
+        if meth == "close":
+            o = st.obj(self_v)
+            o.fields["g_closed"] = SBool(True)
+            bad = st.fork()
+            return [ex.res(st, NONE), ex.res_exc(bad, SExc(AppError))]
+        return None
+
+
+APPITER = AppIterModel()
+
+
+class AppIterSteps:
+    length = None
+
+    def __init__(self, ref):
+        self.ref = ref
+
+    def step(self, ex, st, idx):
+        A = z3.Array("APPOUT", I, I)
+        n = fresh_int("item.len")
+        item_st = st
+        stop_st = st.fork()
+        err_st = st.fork()
+        os_st = st.fork()
+        item_st.assume(n >= 0)
+        lo = fresh_int("item.lo")
+        return [(item_st, "item", mk_win(A, lo, lo + n)), (stop_st, "stop", None), (err_st, "raise", SExc(AppError)),
+                (os_st, "raise", oserr())]
+
+
+def _appiter_iter(ex, st, v, as_list=False):
+    if isinstance(v, Ref) and isinstance(st.obj(v), HObj) and st.obj(v).cls in ("AppIter",):
+        return AppIterSteps(v)
+    return None
+
+
+@contract("abstract:App.__call__", props=("C02", "C05", "C19"))
+class AppCall(Contract):
+    """ASSUMED behaviour of a PEP 3333 application: calls start_response (validated by its contract) before returning its
+    iterable, may have used the write() callable; returns an iterable or a wsgi.file_wrapper instance; may raise.
+    Its status / headers / output are arbitrary: that is the quantifier over programs."""
+    trusted = True
+    params = ["self", "environ", "start_response"]
+
+    def raises(self, c):
+        return [(AppError, None), (AppBaseError, None), (OSError, None, lambda c2: {"errno": SInt(fresh_int("errno"))})]
+
+    def _resp(self, c):
+        sr = c.a["start_response"]
+        return sr.self_v
+
+    def effects(self, c):
+        st = c.st
+        env = c.ex.env
+        resp = self._resp(c)
+        ro = st.obj(resp)
+        status = strops.fresh_str(st, "app.status", True)
+        st.assume(W.clean(status))
+        ro.fields["status"] = status
+        ro.fields["status_code"] = SOpt(fresh_bool("has_code"), SInt(fresh_int("status_code")))
+        hdrs = st.alloc(HList(sym=ListShape(W.APP_HDR).fresh_seq(st, "app.hdrs", view=False)))
+        st.assume(W.all_hdrs_ok(st.obj(hdrs).sym))
+        ro.fields["headers"] = hdrs
+        L = fresh_int("resp.length")
+        ro.fields["response_length"] = SOpt(fresh_bool("has_length"), SInt(L))
+        ro.fields["upgrade"] = SBool(fresh_bool("upgrade"))
+        ro.fields["headers_sent"] = SBool(fresh_bool("hs"))
+        ro.fields["sent"] = SInt(fresh_int("sent"))
+        ro.fields["g_hend"] = SInt(fresh_int("g_hend"))
+        so = st.obj(ro.fields["sock"])
+        wl0 = so.fields["g_wl"].t
+        so.fields["g_wl"] = SInt(fresh_int("wl"))
+        so.fields["g_wire"] = strops.fresh_str(st, "wire", False)
+        cc = Ctx(c.ex, st, {"self": resp})
+        ro.fields["chunked"] = SBool(W.spec_is_chunked(cc, st))
+        st.assume(so.fields["g_wl"].t >= wl0, Implies(ro.fields["response_length"].some, L >= 0))
+        for (_n, f) in W.RI_resp(cc, st):
+            st.assume(f)
+        st.assume(Or(ro.fields["status_code"].some, ro.fields["response_length"].some, TRUE))
+        app = st.obj(c.a["self"])
+        app.fields["g_calls"] = SInt(app.fields["g_calls"].t + 1)
+        app.fields["g_returned"] = SBool(True)
+
+    def result_shape(self, c):
+        st = c.st
+        env = c.ex.env
+        env.class_models["AppIter"] = APPITER
+        if _appiter_iter not in env.iter_models:
+            env.iter_models.append(_appiter_iter)
+        kind = c.ex.case_ghost.get("respiter", "iter")
+        if kind == "file":
+            fw, f = W.mk_filewrapper(env, st)
+            st.obj(fw).fields["g_has_close"] = SBool(True)
+            return fw
+        return st.alloc(HObj("AppIter", {"g_has_close": SBool(fresh_bool("has_close")), "g_closed": SBool(False)}))
+
+
+def mk_app(env, st):
+    return st.alloc(HObj("App", {"g_calls": SInt(z3.Int("app.calls0")), "g_returned": SBool(False)}))
+
+
+# write_file: sendfile or item loop
+@contract("gunicorn.http.wsgi:Response.write_file", props=("C02", "C19"))
+class RespWriteFile(Contract):
+    def cases(self, env):
+        st = W.base_state(env)
+        r = W.mk_response(env, st)
+        seq = st.obj(st.obj(r).fields["headers"]).sym
+        st.assume(W.all_hdrs_ok(seq))
+        fw, f = W.mk_filewrapper(env, st)
+        env.class_models["FileWrapper"] = FILEWRAP
+        if _fw_iter not in env.iter_models:
+            env.iter_models.append(_fw_iter)
+        return [("file", st, {"self": r, "respiter": fw}, {})]
+
+    def pre(self, c):
+        return W.RespSendfile.pre(W.RespSendfile(), c)
+
+    def modifies(self, c):
+        return W.RespSendfile.modifies(W.RespSendfile(), c)
+
+    def raises(self, c):
+        return [(OSError, None, lambda c2: {"errno": SInt(fresh_int("errno"))}), (UnicodeEncodeError, None), (AppError, None)]
+
+    def post(self, c):
+        st1, st0 = c.st, c.old
+        return W.RI_resp(c, st1) + [("sent-only-grows", W.F(c, st1, "sent").t >= W.F(c, st0, "sent").t),
+                                    ("wire-only-grows", W.wl(c, st1) >= W.wl(c, st0))]
+
+    loops = {0: dict(anchor="for item in respiter", cands=[
+        ("RI(resp)", lambda L: And(*[f for _, f in W.RI_resp(_CC(L), L.st)])),
+        ("sent-monotone", lambda L: L.st.obj(L.self).fields["sent"].t >= L.entry.obj(L.self).fields["sent"].t),
+        ("wl-monotone", lambda L: W.wl(_CC(L), L.st) >= W.wl(_CC(L), L.entry)),
+        ("send_headers-pre", lambda L: And(*[f for _, f in W.SendHeaders.pre(W.SendHeaders(), _CC(L))])),
+        ("chunked-fixed", lambda L: L.ex.truth(L.st.obj(L.self).fields["chunked"], L.st) == L.ex.truth(L.entry.obj(L.self).fields["chunked"], L.entry)),
+    ])}
+
+
+class _CC:
+    def __init__(self, L):
+        self.st = L.st
+        self.ex = L.ex
+        self.a = {"self": L.self}
+        self.mode = "verify"
+
+
+class FileWrapModel(ClassModel):
+    def hasattr(self, ex, st, v, o, name):
+        return name in ("close", "filelike")
+
+
+FILEWRAP = FileWrapModel()
+
+
+def _fw_iter(ex, st, v, as_list=False):
+    # iteration over a FileWrapper uses __getitem__: blocks of the file until an empty read (IndexError)
+    if isinstance(v, Ref) and isinstance(st.obj(v), HObj) and st.obj(v).cls == "FileWrapper":
+        return AppIterSteps(v)
+    return None
